@@ -40,7 +40,8 @@ RULE = ("random path expressions (depth <= 4 quick / <= 6 thorough; iri, ^, /, |
         "falsy or absent from the graph), driven through Graph.triples / subjects / objects / subject_objects / "
         "__contains__, Dataset (default_union on / off, named graph), ReadOnlyGraphAggregate over a split of the graph, "
         "and SPARQL SELECT with constants or VALUES, also over a Dataset (union, default graph, GRAPH <g>); one case in twelve "
-        "has an EMPTY active graph (fresh, emptied after adds, empty default graph, empty registered named graph); the thorough tier first sweeps ALL 2^18 graphs over 3 nodes x 2 "
+        "builds paths incrementally from shared sub-path objects with the operators / constructors and evaluates every object before "
+        "and after it was used as an operand (constructors must not mutate operands), one in twelve has an EMPTY active graph (fresh, emptied after adds, empty default graph, empty registered named graph); the thorough tier first sweeps ALL 2^18 graphs over 3 nodes x 2 "
         "predicates (blocks of 128) against 24 fixed path shapes with the oracle (one shape per graph also against the "
         "model).  non-trivial = the path has an operator and some binding with a given end has a non-empty answer; "
         "distinct = distinct (triples, path, ends)")
@@ -560,9 +561,158 @@ def gen_empty_view(rng):
                        "sparql_ds_default", "sparql_ds_graph"], "style": rng.randint(0, 1)}
 
 
+# ---- incremental construction from shared sub-path objects ------------------------------------------------
+# case["inc"] = list of steps, step k creates object k from earlier objects:
+#   ["iri", p] | ["inv", i] | ["seq", i, j] | ["alt", i, j] | ["mul", i, mod] | ["neg", i]
+# Every object is evaluated right after it was created and again after each later step that used it as an operand
+# (and all objects once more at the end): a constructor must not change its operands.
+
+
+def inc_asts(steps):
+    asts = []
+    for st in steps:
+        k = st[0]
+        if k == "iri":
+            asts.append(["i", st[1]])
+        elif k == "inv":
+            asts.append(["v", asts[st[1]]])
+        elif k == "seq":
+            asts.append(["s", [asts[st[1]], asts[st[2]]]])
+        elif k == "alt":
+            asts.append(["a", [asts[st[1]], asts[st[2]]]])
+        elif k == "mul":
+            asts.append(["m", st[2], asts[st[1]]])
+        elif k == "neg":
+            a = asts[st[1]]
+            ms = a[1] if a[0] == "a" else [a]
+            asts.append(["n", [m[1] for m in ms if m[0] == "i"], [m[1][1] for m in ms if m[0] == "v"]])
+        else:
+            raise ValueError(k)
+    return asts
+
+
+def _negatable(ast):
+    member = lambda a: a[0] == "i" or (a[0] == "v" and a[1][0] == "i")  # noqa: E731
+    return member(ast) or (ast[0] == "a" and len(ast[1]) >= 1 and all(member(x) for x in ast[1]))
+
+
+def inc_events(steps):
+    """(object index) in evaluation order: the new object and its operands after every step, everything at the end"""
+    ev = []
+    for k, st in enumerate(steps):
+        ev.append(k)
+        for x in st[1:]:
+            if isinstance(x, int) and st[0] != "iri" and x not in ev[-3:]:
+                ev.append(x)
+    ev += list(range(len(steps)))
+    return ev
+
+
+def gen_incremental(rng):
+    nodes, preds, T = gen_graph(rng)
+    steps = [["iri", p] for p in preds]
+    if len(steps) == 1:
+        steps.append(["iri", rng.choice(list(PRED))])
+    for _ in range(rng.randint(3, 8)):
+        asts = inc_asts(steps)
+        n = len(steps)
+        r = rng.random()
+        # prefer recently built composite objects as (leading) operands: that is where sharing bites
+        comp = [k for k in range(n) if asts[k][0] in "sa"]
+        lead = rng.choice(comp) if comp and rng.random() < 0.6 else rng.randrange(n)
+        if r < 0.4:
+            st = ["seq", lead, rng.randrange(n)] if rng.random() < 0.7 else ["seq", rng.randrange(n), lead]
+        elif r < 0.65:
+            st = ["alt", lead, rng.randrange(n)] if rng.random() < 0.7 else ["alt", rng.randrange(n), lead]
+        elif r < 0.78:
+            st = ["inv", rng.randrange(n)]
+        elif r < 0.92:
+            st = ["mul", rng.randrange(n), rng.choice("?*+")]
+        else:
+            cand = [k for k in range(n) if _negatable(asts[k])]
+            st = ["neg", rng.choice(cand)] if cand else ["inv", rng.randrange(n)]
+        if not cheap(inc_asts(steps + [st])[-1], T, 600):
+            continue
+        steps.append(st)
+    used = {x for t in T for x in (t[0], t[2])}
+    s, o = pick_end(rng, nodes, used), pick_end(rng, nodes, used)
+    return {"inc": steps, "triples": T, "ends": [[None, None], [s, None], [None, o]], "style": rng.randint(0, 1)}
+
+
+def _inc_build(st, objs, style):
+    k = st[0]
+    if k == "iri":
+        return PRED[st[1]]
+    if k == "inv":
+        return ~objs[st[1]] if style else InvPath(objs[st[1]])
+    if k == "seq":
+        return objs[st[1]] / objs[st[2]] if style else SequencePath(objs[st[1]], objs[st[2]])
+    if k == "alt":
+        return objs[st[1]] | objs[st[2]] if style else AlternativePath(objs[st[1]], objs[st[2]])
+    if k == "mul":
+        return objs[st[1]] * st[2] if style else MulPath(objs[st[1]], st[2])
+    return -objs[st[1]] if style else NegatedPath(objs[st[1]])
+
+
+def _run_inc(case):
+    steps, asts = case["inc"], inc_asts(case["inc"])
+    T = sorted({tuple(t[:3]) for t in case["triples"]})
+    g = Graph()
+    for s, p, o in T:
+        g.add((TERM[s], TERM[p], TERM[o]))
+    style = case.get("style", 0)
+    obs, viol, objs = [], [], []
+    stats = {"inc_cases": 1, "inc_steps": len(steps), "inc_evaluations": 0}
+    for st in steps:
+        stats["inc_op_" + st[0]] = stats.get("inc_op_" + st[0], 0) + 1
+    events = inc_events(steps)
+    built = 0
+    nontrivial = False
+    for n_ev, k in enumerate(events):
+        while built <= k:
+            try:
+                objs.append(_inc_build(steps[built], objs, style))
+            except Exception as e:
+                viol.append(f"raise: building step {built} {steps[built]} raised {type(e).__name__}: {str(e)[:100]}")
+                objs.append(None)
+            built += 1
+        P, ast = objs[k], asts[k]
+        later = any(k in st[1:] and st[0] != "iri" for st in steps[k + 1:built])
+        for s, o in case["ends"]:
+            stats["inc_evaluations"] += 1
+            if P is None or isinstance(P, URIRef) and False:
+                obs.append("ERR:Other")
+                continue
+            S, O = (None if s is None else TERM[s]), (None if o is None else TERM[o])
+            try:
+                got = [(REV[a], REV[b]) for a, _p, b in g.triples((S, P, O))]
+            except core.CaseTimeout:
+                raise
+            except Exception as e:
+                obs.append("ERR:" + _err(e))
+                viol.append(f"raise: object {k} {ast} ends ({s},{o}) raised {type(e).__name__}: {str(e)[:100]}")
+                continue
+            obs.append(_line(got, is_closure(ast)))
+            want = expected(ast, T, s, o)
+            gs = set(got)
+            if gs != want:
+                tag = relation_tag(ast, T, s, o, gs)
+                if tag == "relation" and later:
+                    tag = "operand"      # the object was fine when built (else an earlier event fails too)
+                viol.append(f"{tag}: object {k} built as {ast}, evaluated {'after' if later else 'before'} being used as an "
+                            f"operand, ends ({s},{o}) on {T}: missing {sorted(want - gs)} extra {sorted(gs - want)}")
+            if is_closure(ast) and len(got) != len(gs):
+                viol.append(f"dup: object {k} closure {ast} ends ({s},{o}) on {T} yields duplicates")
+            if want and later:
+                nontrivial = True
+    return {"obs": obs, "viol": viol, "nontrivial": nontrivial, "key": repr((T, steps, case["ends"])), "stats": stats}
+
+
 def gen_case(rng, tier, i):
     if tier == "thorough" and i < EX_BLOCKS:
         return gen_exhaustive(rng, i)
+    if i % 12 == 9:
+        return gen_incremental(rng)
     if i % 12 == 5:
         return gen_empty_view(rng)
     nodes, preds, T = gen_graph(rng)
@@ -813,6 +963,8 @@ def _run_ex(case):
 def run_impl(case):
     if "ex" in case:
         return _run_ex(case)
+    if "inc" in case:
+        return _run_inc(case)
     parts, plan = _plan(case)
     ast = case["path"]
     closure = is_closure(ast)
@@ -889,6 +1041,15 @@ def _w(x):
 
 
 def model_lines(case):
+    if "inc" in case:
+        asts = inc_asts(case["inc"])
+        T = sorted({tuple(t[:3]) for t in case["triples"]})
+        lines = ["graph " + " ".join("%d,%d,%d" % t for t in T)]
+        for k in inc_events(case["inc"]):
+            toks = " ".join(path_tokens(asts[k]))
+            for s, o in case["ends"]:
+                lines.append(f"eval {_w(s)} {_w(o)} {toks}")
+        return lines
     if "ex" in case:
         lines = []
         b = case["ex"]
@@ -924,6 +1085,8 @@ def _dedup_line(line):
 
 
 def select_model_obs(case, out):
+    if "inc" in case:
+        return list(out[1:])     # the driver already prints sets for non-closures, lists for closures
     if "ex" in case:
         res, k = [], 0
         b = case["ex"]
@@ -987,6 +1150,17 @@ def _simpler_paths(ast):
 
 
 def shrink(case):
+    if "inc" in case:
+        steps = case["inc"]
+        for n in range(len(steps) - 1, 1, -1):      # drop trailing steps (never referenced by earlier ones)
+            yield {**case, "inc": steps[:n]}
+        if len(case["ends"]) > 1:
+            for e in case["ends"]:
+                yield {**case, "ends": [e]}
+        T = case["triples"]
+        for i in range(len(T)):
+            yield {**case, "triples": T[:i] + T[i + 1:]}
+        return
     if "ex" in case:
         # locate the failing (graph, shape) pairs of the block and continue with ordinary cases
         n = 0
